@@ -62,7 +62,7 @@ def cases():
             return f
         cs.append(Case('from_array_%d_%d_%d' % (n, m, ln), 'from_array N [%s] %d %d' % ('; '.join('ar%d' % i for i in range(ln)), n, m), run, fit_text))
     # 4. Measurements extraction
-    for xb in ('weight', 'molar'):
+    for xb in ('weight', 'molar', 'mixed'):
         for which in ('first', 'second'):
             def run(xb=xb, which=which):
                 m, _ = sym_mixture()
@@ -72,9 +72,9 @@ def cases():
             cur = []
             for c in range(2):
                 pts = '; '.join('(Build_Composition N cx%d_%d %s, (Build_Permeance N cp%d_%d_1 KG, Build_Permeance N cp%d_%d_2 KG))' % (
-                    c, j, ctype_text(xb), c, j, c, j) for j in range(2))
+                    c, j, ctype_text(xb if xb != 'mixed' else ('weight', 'molar')[j % 2]), c, j, c, j) for j in range(2))
                 cur.append('(Build_CurvePts N Tc%d [%s])' % (c, pts))
-            cs.append(Case('measurements_%s_%s' % (which, xb[0]),
+            cs.append(Case('measurements_%s_%s' % (which, 'x' if xb == 'mixed' else xb[0]),
                            'measurements N %s %s [%s]' % (mt, 'true' if which == 'second' else 'false', '; '.join(cur)),
                            run, meas_text))
     # 5. find_best_fit with fit abstract
@@ -129,20 +129,23 @@ def cases():
                     seen['nm'] = (n, m)
                     return 0.0
 
-                class Res:
-                    pass
-
                 def minimize_stub(fun, x0=None, method=None, **kw):
+                    from scipy.optimize import OptimizeResult
+                    seen['calls'] = seen.get('calls', 0) + 1
                     seen['x0'] = list(x0)
                     seen['method'] = method
                     fun(list(x0))
-                    r = Res()
-                    r.x = numpy.array([V('opt%d' % i, 0.1 * (i + 1)) for i in range(len(x0))], dtype=object)
-                    return r
+                    # a faithful result object; every other case reports that the optimiser did NOT converge (a legitimate
+                    # outcome of Powell): the fitted function must still be exactly what the optimiser returned
+                    ok = (idx % 2 == 0)
+                    return OptimizeResult(x=numpy.array([V('opt%d' % i, 0.1 * (i + 1)) for i in range(len(x0))], dtype=object),
+                                          success=ok, status=0 if ok else 1, message='stub', nfev=1, nit=1, fun=0.0)
                 with patch_attr(OPT, 'objective', objective_stub), patch_attr(OPT.optimize, 'minimize', minimize_stub):
                     f = fit(data, n=1, m=1, include_zero=iz, component_index=idx)
                 if snapshot(data) != before:
                     raise TraceEscape('fit modified the measurements it was given (%d -> %d points)' % (len(before[0]), len(data.data)))
+                if seen.get('calls') != 1:
+                    raise TraceEscape('fit called the optimiser %r times, the model calls it once' % seen.get('calls'))
                 f.a, f.b = list(f.a), list(f.b)
                 return (f, seen['data'])
             _, dt = sym_data(3, nt=1)
